@@ -9,6 +9,7 @@
          <answer> = {"k":"simple"|"complex"|"error"|"reject"|"abort","hex":"…","r":n,"srv":b,"dcc":0|1|2|null}
      {"op":"quiesce"}                        fire every armed transaction timer; reply has "pend": the
                                              Network-Number-Is answer task is (still) scheduled then
+     {"op":"advance","us":n}                 n microseconds pass: transaction timers due meanwhile fire
      {"op":"dcc","d":0|1|2}                  the application switched the DCC gate (timed re-enable)
      {"op":"learn","src":"0a","info":{maxApdu,seg,maxSegs,maxNpdu}}   I-Am seen by the application
      {"op":"reqdecode","svc":n,"hex":"…"}    the ASAP service decoder alone
@@ -131,6 +132,11 @@ def handle (st : DSt) (j : Json) : R (DSt × Json) := do
     -- "pend": a timer other than a transaction's is scheduled when every transaction is over
     pure (st', report st' [("pend", Json.bool dev0.nniPending)] outs
       ("q:" ++ (if dev0.nniPending then "nni:" else "") ++ String.intercalate "," (outs.map hdrSig)))
+  | "advance" =>
+    let dev0 := { st.dev with app := {} }
+    let (dev1, outs) := advance (devCfg st.base) dev0 (← fldNat j "us")
+    let st' := { st with dev := dev1 }
+    pure (st', report st' [] outs ("adv:" ++ String.intercalate "," (outs.map hdrSig)))
   | "dcc" =>
     let d := dccOfNat (← fldNat j "d")
     let dev1 := { st.dev with sap := { st.dev.sap with dcc := d } }
